@@ -28,7 +28,9 @@ LEVEL = "proof"
 RULE = ("cases = (operation, option combination, operand DFAs); seeded slice (quick) or all (thorough) ordered "
         "pairs of DFAs with ≤2 states over {a,b} incl. partial ones, then shaped random operands (≤5 states, "
         "adversarial name pools, partial×complete mixes), random expression trees of depth ≤3, alphabet "
-        "mismatches, to_partial/to_complete incl. custom trap names; non-trivial = every operand has ≥2 "
+        "mismatches, to_partial/to_complete incl. custom trap names; sequences of 2–4 calls (to_partial, minify, complement, ~, "
+        "to_complete, | & - ^, isempty, isfinite, maximum_word_length, ==, <=) on ONE object kept alive, every result "
+        "evaluated; non-trivial = every operand has ≥2 "
         "reachable states and the result language is neither empty nor universal; distinct = distinct "
         "(operation, options, encoded operands)")
 ASSUMPTIONS = [
@@ -291,6 +293,30 @@ def do_expr(ctx: Ctx, leaves, depth: int):
     ctx.case(("expr", text, tuple(repr(x) for x in leaves)) if ok and nontrivial(leaves, R) else None)
 
 
+def seq_on_dfa(ctx):
+    def on_dfa(what, srcs, spec, R, replay, minified):
+        return check_result_props(ctx, what, srcs, R, spec, replay)
+    return on_dfa
+
+
+@guarded
+def do_sequence(ctx: Ctx, d: DFA, b: DFA, steps, origin: str):
+    from harness import dfa_sequences
+    dfa_sequences.run_sequence(ctx, d, b, steps, origin, seq_on_dfa(ctx))
+
+
+def run_sequences(ctx: Ctx, n: int):
+    """2–4 calls on ONE object in random order, every result evaluated (see harness/dfa_sequences.py)."""
+    from harness import dfa_sequences
+    rng = ctx.rng
+    for _ in range(n):
+        al = rng.choice(gen.ALPHABETS)
+        # complete DFAs with sinks (reachable dead states) are the interesting operands: half of the draws
+        d = gen.rand_dfa(rng, 5, al, partial=False if rng.random() < 0.5 else None)
+        b = gen.rand_dfa(rng, 4, al)
+        do_sequence(ctx, d, b, dfa_sequences.draw_steps(rng), "sequence_on_one_object")
+
+
 def small_dfas():
     out = []
     for n in (1, 2):
@@ -340,7 +366,9 @@ def search(ctx: Ctx):
         b = gen.rand_dfa(rng, 4, al)
         r, m = opts[rng.randrange(4)]
         k = rng.random()
-        if k < 0.4:
+        if k < 0.1:
+            run_sequences(ctx, 1)
+        elif k < 0.4:
             do_binop(ctx, rng.choice(list(OPS)), a, b, r, True, "search")
         elif k < 0.6:
             do_complement(ctx, a, r, True, "search")
@@ -384,6 +412,8 @@ def run(ctx: Ctx):
             do_to_complete(ctx, a, mode, "small_unary")
     if step == 1:
         ctx.exhaustive("all DFAs with ≤2 states over {a,b}: complement / to_partial (4 option combinations), to_complete (3 trap modes)")
+    # sequences of calls on one object
+    run_sequences(ctx, ctx.budget(700, 12000))
     # 2. shaped random
     for _ in range(ctx.budget(4000, 60000)):
         al = rng.choice(gen.ALPHABETS)
@@ -423,6 +453,8 @@ def replay(ctx: Ctx, path: str) -> int:
         do_to_partial(ctx, eval(rp["A"], env), rp["retain_names"], rp["minify"], "replay")
     elif op == "to_complete":
         do_to_complete(ctx, eval(rp["A"], env), rp["mode"], "replay")
+    elif op == "sequence":
+        do_sequence(ctx, eval(rp["A"], env), eval(rp["B"], env), rp["steps"], "replay")
     else:
         print("replay: expression-tree replays are re-run by seed (VERIF_SEED) only")
         return 0
